@@ -169,9 +169,9 @@ Proof. exact line_integral. Qed.
 
 (* the classes whose marginal cost is continuous everywhere: Device, PVDevice, CDevice, CDevice2 (one range), IDevice
    (natural exponents), IDevice2, GDevice - for ANY two flows of the right length (in bounds or not), any price.
-   PARTIAL for SDevice / TDevice / multi-range CDevice2 / ADevice: for those only the coordinate form above is proved
-   (a segment may cross the charge/discharge kink; the general theorem applies on kink-free segments once continuity of their
-   marginal cost is shown, which is not done here). *)
+   SDevice: below, at every flow off the charge/discharge kink and along every segment that does not cross it.
+   PARTIAL for TDevice / multi-range CDevice2 / ADevice: for those only the coordinate form above is proved (the general theorem
+   applies once continuity of their marginal cost is shown, which is not done here). *)
 Theorem C01_total_derivative_smooth_classes : forall n b cb k (p x : list R), length p = n -> length x = n -> smooth_kind k cb n ->
   dir_at (fun s => leaf_cost (Build_leafdev n b cb k) s p) (leaf_deriv (Build_leafdev n b cb k) x p) x.
 Proof. exact smooth_classes_total. Qed.
@@ -197,3 +197,19 @@ Example C01_line_integral_example :
           (leaf_cost (Build_leafdev 3 [(0, 4); (0, 4); (0, 4)] [] (KI2 (PS (-1)) (PS 2))) [1; 2; 3] [1; 1; 1]
            - leaf_cost (Build_leafdev 3 [(0, 4); (0, 4); (0, 4)] [] (KI2 (PS (-1)) (PS 2))) [0; 0; 0] [1; 1; 1]).
 Proof. exact line_example. Qed.
+
+(* ---- storage: total derivative at every flow off the charge/discharge kink (efficiency 1, or no slot flow exactly 0), and the line
+   integral along every segment whose end points lie on the same side of 0 in every slot (or efficiency 1). The deep-discharge term
+   min(.,0)^2 needs no exclusion. Proofs/Cont.v (continuity in the sup norm), Proofs/TotalStorage.v. ---- *)
+From DK.Proofs Require Import Cont TotalStorage.
+Theorem C01_sdevice_marginal_cost_continuous_off_the_kink : forall q (x p : list R), smooth_at (sp_eff q) x ->
+  gcont (fun y => sdev_deriv q y p) x.
+Proof. exact sdev_deriv_continuous. Qed.
+Theorem C01_sdevice_total_derivative : forall n b cb q (x p : list R), length x = n -> length p = n -> smooth_at (sp_eff q) x ->
+  dir_at (fun s => leaf_cost (Build_leafdev n b cb (KS q)) s p) (leaf_deriv (Build_leafdev n b cb (KS q)) x p) x.
+Proof. exact sdevice_total_derivative. Qed.
+Theorem C01_sdevice_line_integral : forall n b cb q (x y p : list R), length x = n -> length y = n -> length p = n ->
+  (sp_eff q = 1 \/ (forall k, (k < length x)%nat -> 0 < nth k x 0 * nth k y 0)) ->
+  is_RInt (fun t => dot (leaf_deriv (Build_leafdev n b cb (KS q)) (seg x y t) p) (vsub y x)) 0 1
+          (leaf_cost (Build_leafdev n b cb (KS q)) y p - leaf_cost (Build_leafdev n b cb (KS q)) x p).
+Proof. exact sdevice_line_integral. Qed.
